@@ -29,7 +29,7 @@ class Outcome:
     excluded    : case fell into a guard band and was not judged
     nontrivial  : case is non-trivial by the module's rule
     """
-    __slots__ = ('cls', 'transitions', 'viols', 'excluded', 'nontrivial', 'validated', 'digest')
+    __slots__ = ('cls', 'transitions', 'viols', 'excluded', 'nontrivial', 'validated', 'digest', 'extra')
 
     def __init__(self, cls='ok', transitions=1, viols=None, excluded=False, nontrivial=True, validated=1):
         self.cls = cls
@@ -38,6 +38,7 @@ class Outcome:
         self.excluded = excluded
         self.nontrivial = nontrivial
         self.validated = validated
+        self.extra = None
 
 
 class Report:
@@ -96,6 +97,9 @@ class Report:
                 self.viols[kind] = [1, index, case, msg]
             else:
                 self.viols[kind][0] += 1
+        if getattr(out, 'extra', None):
+            for k, v in out.extra.items():
+                self.extra[k] = self.extra.get(k, 0) + v
 
 
 def _worker(shard, nshards, cases, check_case, timeout_s, path, sample_every, init=None):
